@@ -4,6 +4,7 @@ from __future__ import annotations
 import ast
 import re
 
+from ..families import api_name
 from ..model import AnalysisError, ClassInfo, FuncInfo, Program
 from ..report import Run
 from ..skel import BUILDER_CLASSES, kind_states, recv_path, render, renderable_classes, root_attr, skeletons
@@ -486,6 +487,7 @@ def _accumulation(program: Program, run: Run) -> None:
                     names.append(nm)
         for nm in names:
             f = c.resolve(nm)
+            nm = api_name(c, f)
             d = _Dep(program, c)
             d.func(f, frozenset(), frozenset())
             if nm == "join":
@@ -527,6 +529,7 @@ def _accumulation(program: Program, run: Run) -> None:
         writers: dict = {}
         for nm in names:
             f = c.resolve(nm)
+            nm = api_name(c, f)
             d = _Dep(program, c)
             d.func(f, frozenset(), frozenset())
             for a, fs in d.forms.items():
@@ -570,6 +573,7 @@ def _couplings(program: Program, run: Run) -> None:
                     names.append(n)
         for n in names:
             f = c.resolve(n)
+            n = api_name(c, f)
             pairs, writes = _reads_writes(program, f, c)
             if n == "join" and joiner is not None:
                 dj = c.resolve("do_join")   # continuation: Joiner.on/using/cross -> query.do_join
